@@ -464,15 +464,15 @@ func ruleFetchFailsOnlyOnTransport(w *World, r *Run, rule string) {
 					continue
 				}
 				n++
+				// the branch that led to this return: a call that failed, or a test of the status
 				cause := false
-				for _, ev := range s.Events {
-					if ev.Kind == "call" && failed(s, ev) {
-						cause = true
-					}
-				}
-				for _, fc := range s.Facts {
-					anySub(fc.T, func(x *Term) bool {
-						if x.Kind == "field" && (x.Name == "StatusCode" || x.Name == "Status") {
+				if len(s.Facts) > 0 {
+					last := s.Facts[len(s.Facts)-1]
+					anySub(last.T, func(x *Term) bool {
+						if x.Kind == "field" && x.Name == "StatusCode" {
+							cause = true
+						}
+						if x.Kind == "call" && isErrorType(x.Typ) {
 							cause = true
 						}
 						return false
